@@ -24,6 +24,10 @@ type tagHook struct{ id int }
 
 func (h tagHook) Run(e *zerolog.Event, l zerolog.Level, m string) { e.Int("hook", h.id) }
 
+type dropHook struct{}
+
+func (dropHook) Run(e *zerolog.Event, l zerolog.Level, m string) { e.Discard() }
+
 type concInst struct {
 	threads int
 	variant string
@@ -53,6 +57,13 @@ func (c *concInst) Body() {
 			mcrt.Point("step")
 			hooked := child.Hook(tagHook{t})
 			mcrt.Point("step")
+			if c.variant == "dropping" {
+				// a sibling whose first hook discards every event while a later hook still runs on it: nothing of it is
+				// written, and nothing of it may end up in anybody else's event
+				drop := child.Hook(dropHook{}).Hook(tagHook{50 + t})
+				drop.Info().Str("who", fmt.Sprintf("drop%d", t)).Msg("dropped")
+				mcrt.Point("step")
+			}
 			hooked.Info().Str("who", fmt.Sprintf("hooked%d", t)).Msg("m")
 			mcrt.Point("step")
 			child.UpdateContext(func(cx zerolog.Context) zerolog.Context { return cx.Int("u", t) })
@@ -209,6 +220,7 @@ func concPart(r *seq.Run, tier string) {
 	plans := []drv.Plan{
 		{Scenario: "T2/plain", Bound: 3, Cache: true, Single: true, MaxSteps: 20000},
 		{Scenario: "T2/hooked", Bound: 3, Cache: true, Single: true, MaxSteps: 20000},
+		{Scenario: "T2/dropping", Bound: 3, Cache: true, Single: true, MaxSteps: 20000},
 		{Scenario: "T3/plain", Bound: 2, Cache: true, Single: true, MaxSteps: 20000},
 	}
 	if tier == "thorough" {
